@@ -111,7 +111,7 @@ fn make_fault(rng: &mut Rng, spec: &Spec, tree: &[Node], class: &'static str) ->
             };
             let mut b = bytes0.clone();
             b[l.off..l.off + l.id_len].copy_from_slice(&id_bytes(nid));
-            { let (ep, oe) = prefix_before(spec, &bytes0, &lay0, k); Some(Fault { class, bytes: b, off: l.off, id: nid, size: None, expected_prefix: ep, optional_ends: oe, limit: 1 << 20, desc: format!("id of leaf #{} replaced by unknown id {:x}", k, nid) }) }
+            { let (ep, oe) = prefix_before(spec, &bytes0, &lay0, k); Some(Fault { class, bytes: b, off: l.off, id: nid, size: None, expected_prefix: ep, optional_ends: oe, limit: 1 << 24, desc: format!("id of leaf #{} replaced by unknown id {:x}", k, nid) }) }
         }
         "hierarchy" => {
             // choose a known-size master (or the root level) and insert an element that is not allowed there
@@ -180,7 +180,7 @@ fn make_fault(rng: &mut Rng, spec: &Spec, tree: &[Node], class: &'static str) ->
             if lay[k].id != e.id {
                 return None;
             }
-            { let (ep, oe) = prefix_before(spec, &bytes, &lay, k); Some(Fault { class, off: lay[k].off, id: e.id, size: None, expected_prefix: ep, optional_ends: oe, bytes, limit: 1 << 20, desc: format!("element {} inserted under chain {:x?}", spec.path_str(e), chain) }) }
+            { let (ep, oe) = prefix_before(spec, &bytes, &lay, k); Some(Fault { class, off: lay[k].off, id: e.id, size: None, expected_prefix: ep, optional_ends: oe, bytes, limit: 1 << 24, desc: format!("element {} inserted under chain {:x?}", spec.path_str(e), chain) }) }
         }
         "oversized-child" => {
             let cands: Vec<usize> = lay0.iter().enumerate().filter(|(_, l)| !l.is_master && matches!(spec.ty(l.id), Some(Ty::S) | Some(Ty::B)) && l.parent.map(|p| lay0[p].size.is_some()).unwrap_or(false)).map(|(i, _)| i).collect();
@@ -200,7 +200,7 @@ fn make_fault(rng: &mut Rng, spec: &Spec, tree: &[Node], class: &'static str) ->
                 (*ptrs[leaf_no]).sz = RSz::Lie(4, lie as u64);
             }
             let (bytes, lay) = enc_tree(&rn);
-            { let (ep, oe) = prefix_before(spec, &bytes, &lay, k); Some(Fault { class, off: lay[k].off, id: lay[k].id, size: Some(lie), expected_prefix: ep, optional_ends: oe, bytes, limit: 1 << 20, desc: format!("leaf #{} declares {} bytes (has {}), parent ends {} bytes after it", k, lie, actual, pend - l.end) }) }
+            { let (ep, oe) = prefix_before(spec, &bytes, &lay, k); Some(Fault { class, off: lay[k].off, id: lay[k].id, size: Some(lie), expected_prefix: ep, optional_ends: oe, bytes, limit: 1 << 24, desc: format!("leaf #{} declares {} bytes (has {}), parent ends {} bytes after it", k, lie, actual, pend - l.end) }) }
         }
         "size-limit" => {
             let maxs = lay0.iter().filter_map(|l| l.size).max()?;
